@@ -160,6 +160,7 @@ impl Connect {
         } else {
             None
         };
+        ensure!(!src.has_remaining(), DecodeError::InvalidLength); // no data should be left in src
 
         Ok(Connect {
             clean_start: flags.contains(ConnectFlags::CLEAN_START),
